@@ -223,24 +223,26 @@ func c02Observe(c C02Case, main, personal []byte, plan OrderPlan, warm []C02Warm
 	simrt.SetOrderPlan(plan.Script, plan.Seed, plan.Mask)
 	defer simrt.SetOrderCanonical()
 	var db *database.Database
-	var err error
-	if personal != nil {
-		db, err = database.LoadDatabaseWithPersonal("/data/main.yml", "/data/personal.yml")
-	} else {
-		db, err = database.LoadDatabase("/data/main.yml")
-	}
-	if err != nil {
-		ob.LoadErr = err.Error()
-		return ob
-	}
 	var cdb *database.CachedDatabase
-	if prev != nil {
-		disk.WriteRaw("/data/prev.yml", prev, 0o644)
-		if pdb, perr := database.LoadDatabase("/data/prev.yml"); perr == nil {
-			cdb = database.NewCachedDatabase(pdb)
-		}
-	}
 	body := func() {
+		// loading is part of the scheduled run: an engine that builds parts of its indexes on goroutines, or waits
+		// for them with a timer, does so under the case's schedule and on the simulated clock
+		var err error
+		if personal != nil {
+			db, err = database.LoadDatabaseWithPersonal("/data/main.yml", "/data/personal.yml")
+		} else {
+			db, err = database.LoadDatabase("/data/main.yml")
+		}
+		if err != nil {
+			ob.LoadErr = err.Error()
+			return
+		}
+		if prev != nil {
+			disk.WriteRaw("/data/prev.yml", prev, 0o644)
+			if pdb, perr := database.LoadDatabase("/data/prev.yml"); perr == nil {
+				cdb = database.NewCachedDatabase(pdb)
+			}
+		}
 		shared := c.Opts.toDB()
 		if shared.ContextBoosts == nil && c.ShareOpts {
 			shared.ContextBoosts = map[string]float64{}
@@ -256,7 +258,11 @@ func c02Observe(c C02Case, main, personal []byte, plan OrderPlan, warm []C02Warm
 			old := cdb.Database
 			for _, w := range append(append([]C02Warm(nil), warm...), C02Warm{Query: c.Query, Opts: c.Opts, Entry: c.Entry}) {
 				func() {
-					defer func() { _ = recover() }()
+					defer func() {
+						if r := recover(); r != nil && simrt.IsAbort(r) {
+							panic(r)
+						}
+					}()
 					_ = c02Search(old, w.Entry, w.Query, pick(w.Opts))
 					_ = old.GetSuggestions(c.Suggest, c.NSuggest)
 				}()
@@ -266,7 +272,11 @@ func c02Observe(c C02Case, main, personal []byte, plan OrderPlan, warm []C02Warm
 		}
 		for _, w := range warm {
 			func() {
-				defer func() { _ = recover() }() // a crash of a warm-up request is not this property's subject
+				defer func() { // a crash of a warm-up request is not this property's subject
+					if r := recover(); r != nil && simrt.IsAbort(r) {
+						panic(r)
+					}
+				}()
 				_ = c02Search(db, w.Entry, w.Query, pick(w.Opts))
 			}()
 		}
